@@ -46,6 +46,8 @@ Forms == {
    CondE(Bin(">", Bin("+", A, B), Num(2)), C), Bin("+", CondE(Bin(">", A, Num(2)), B), C),
    Bin("+", CondE(Bin(">", A, Num(2)), B), CondE(Bin("<=", A, Num(2)), C)),
    CondE(Bin("&&", Bin(">", A, Num(2)), Bin("<", B, Num(5))), C), CondE(Bin("||", Bin(">", A, Num(2)), Bin("<", B, Num(5))), C),
+   CondE(Bin("<", A, Num(0)), Bin("-", Num(0), Num(1))), Bin("+", CondE(Bin(">", A, Num(0)), Num(1)), CondE(Bin("<", A, Num(0)), Bin("-", Num(0), Num(1)))),
+   CondE(Bin(">", A, Num(2)), Bin("*", Num(3), Num(4))),
    CondE(Bin(">", A, Num(2)), Lit(TX, Num(3))), CondE(Bin(">", A, Num(0)), Proj(B, TX)),
    Bin("&&", Bin(">", A, Num(2)), Bin("<", B, Num(5))), Bin("||", Bin(">", A, Num(2)), Bin("<", B, Num(5))),
    Bin("&&", A, B), Bin("||", A, B), Bin("&&", Bin("||", A, B), C), Bin("||", Bin("&&", A, B), C), Un("!", Bin("&&", A, B)),
